@@ -1346,6 +1346,15 @@ def rule_r11(chk, prog):
                 chk.instance('C16.R11', where, f'delegates to {sib}', True,
                              'judged there')
                 continue
+            if pname in ('is_int_const', 'is_real_const'):
+                # written without a pattern (e.g. a character scan): the
+                # predicate is judged on the probe leaves of C15.R14
+                # ("1_0", "+1", "1e5", "inf", ".5" among them)
+                n += 1
+                chk.instance('C16.R11', where, 'no pattern: judged by '
+                             'folding the predicate on the probe leaves '
+                             '(C15.R14)', True, 'see C15.R14')
+                continue
             raise AnalysisError(f'C16.R11: {where}: no regular expression '
                                 'and no conversion found that judges the '
                                 'leaf text')
